@@ -155,7 +155,7 @@ func c03r2(c *Ctx, id string) {
 	}
 	c03DeliverOAE(c, id, oi)
 	// the gate predicate itself: canForward = isControl ∨ ¬needCatchup, filter state touched by data events only
-	gateOAE(c, id, oi)
+	gateOAE(c, id, oi, "filter")
 	gateArgsRule(c, id, oi)
 	// listener arms
 	lts := listenerTargets(c, id, oi)
